@@ -67,8 +67,9 @@ def drive_and_validate(res, runs, module="ShardTrace", cmd="shard", workers=None
                 errf = os.path.join(vlib.subdir("traces"), run["name"] + ".stderr")
                 with open(errf, "w") as f:
                     f.write(se)
+                first = next((ln for ln in se.splitlines() if CRASH_RE.search(ln)), "")
                 res.violation(f"driver process crashed inside the code under test (rc={r['rc']}) in run {run['name']}: "
-                              + se.strip().splitlines()[0][:300],
+                              + first[:300],
                               files=[r["trace"], errf], meta={"cmd": cmd, "args": run["args"]})
                 continue
             raise Inconclusive(f"driver {run['name']} failed rc={r['rc']}: {se[-2000:]}")
@@ -478,13 +479,17 @@ def c12(res, tier, seed, replay):
         behs = vlib.tlc_simulate("ShardMgr", "ShardMgr.sim.cfg", n, 120, seed)
         res.coverage["behaviours_generated"] = len(behs)
         half = len(behs) // 2
-        runs = [("plain", behs[:half], False), ("backups", behs[half:], True)]
+        runs = [("plain", behs[:half], False), ("backups", behs[half:], True), ("stress", [], False)]
     tot_drift = 0
     for name, bs, backups in runs:
         bf = os.path.join(vlib.subdir("traces"), f"mgr-{name}.behaviours")
         write_behaviours(bs, bf)
         out = os.path.join(vlib.subdir("traces"), f"mgr-{name}.ndjson")
-        args = ["mgr", "-behaviours", bf, "-out", out, "-dir", vlib.subdir("mgr-" + name), "-step-ms", "1500"]
+        args = ["mgr", "-out", out, "-dir", vlib.subdir("mgr-" + name), "-step-ms", "1500"]
+        if name == "stress":
+            args += ["-stress", 300 if tier == "quick" else 4000, "-seed", seed]
+        else:
+            args += ["-behaviours", bf]
         if backups:
             args.append("-backups")
         rc, so, se = vlib.run_vh(args, timeout=3000)
@@ -492,14 +497,16 @@ def c12(res, tier, seed, replay):
             if CRASH_RE.search(se):
                 errf = out + ".stderr"
                 open(errf, "w").write(se)
-                res.violation(f"shard manager replay crashed: {se.strip().splitlines()[0][:200]}", files=[bf, errf],
+                first = next((ln for ln in se.splitlines() if CRASH_RE.search(ln)), "")
+                res.violation(f"shard manager replay crashed: {first[:200]}", files=[bf, errf],
                               meta={"behaviours": os.path.basename(bf), "backups": backups})
                 continue
             raise Inconclusive(f"mgr driver failed rc={rc}: {se[-1500:]}")
         stats = json.loads(so.strip().splitlines()[-1])
         tot_drift += stats["drifted"]
         res.add("behaviours_replayed", stats["behaviours"])
-        res.coverage.setdefault("drift_samples", []).extend(stats["drift_samples"][:2])
+        res.add("stress_rounds", stats.get("stress_rounds", 0))
+        res.coverage.setdefault("drift_samples", []).extend((stats.get("drift_samples") or [])[:2])
         # an unconfirmed stuck (some participant not parked on a lock) is inconclusive
         with open(out) as f:
             for line in f:
@@ -507,7 +514,7 @@ def c12(res, tier, seed, replay):
                     raise Inconclusive("a call did not return but the goroutine dump does not show every participant "
                                        "parked on a lock: " + line[:400])
         tv = vlib.tlc_trace("MgrMonitor", out, known=known_names(res.pid).keys(), name="mgr-" + name)
-        res.add("traces_validated_against_impl", stats["behaviours"])
+        res.add("traces_validated_against_impl", stats["behaviours"] + stats.get("stress_rounds", 0))
         res.add("trace_events", tv["lines"])
         if not tv["accepted"]:
             n = tv["matched"] + 1
